@@ -340,6 +340,12 @@ def process_state(ctx, rule_id="FX-PROCESS-STATE"):
             r.check(not gap, "%s::%s[%s]" % (rel.rsplit("/", 1)[-1], name, unparse(key)[:40]), rel, qn, node.lineno, "memo table %s in %s" % (name, qn),
                     "`%s[%s] = %s` keeps a value computed from %s in process-wide state, but the key is computed without %s: a later request that differs only in %s is served the stale entry (results depend on what was assembled before)" % (
                         name, unparse(key)[:50], unparse(value)[:70], "the arguments " + ", ".join(gap) + " (among others)", ", ".join(gap), ", ".join(gap)))
+        # containers bound in a class body are shared by all instances: none exists in the reviewed tree
+        for c in ast.walk(m.tree):
+            if isinstance(c, ast.ClassDef):
+                for st in c.body:
+                    if isinstance(st, (ast.Assign, ast.AnnAssign)) and st.value is not None and _container_kind(st.value) not in (None, "none"):
+                        raise AnalysisError("%s:%d class %s binds a mutable container in its body (`%s`): state shared by all instances is not in the reviewed inventory (sa/state.py)" % (rel, st.lineno, c.name, unparse(st)[:60]))
         # state parked on objects that are handed in (grids, spaces, parameter objects are shared between operators)
         for fn, cls, node, holder, how, key, value in object_state_writes(m.tree):
             qn = "%s.%s" % (cls.name, fn.name) if cls is not None else fn.name
